@@ -81,6 +81,9 @@ func Universe3WayW(withBad bool, window int) *Universe {
 		b.BadBlockRaw("ra2", "a1", "M", []*pb.Transaction{b.U.Block("a1").Transactions[0]})
 		b.BadBlock("o1", "g", "P", nil, false)
 		b.BadBlock("o2", "o1", "P", nil, false)
+		// a block whose two transactions, each valid alone, spend the same output (tS#1): only the
+		// in-block duplicate test of the play path stands in its way, whatever the node's pool holds
+		b.BadBlock("ds2", "a1", "M", []*pb.Transaction{b.U.Tx("tA2"), b.U.Tx("tD2")}, false)
 	}
 	return b.Done()
 }
